@@ -23,13 +23,20 @@ impl TryFrom<&UserBoundsList> for ForwardBounds {
         if value.is_empty() {
             Err("Cannot create ForwardBounds from an empty UserBoundsList")
         } else if value.is_forward_only() {
-            let mut prev_bound_idx = Side::Some(0);
+            // rightmost field requested so far: a field can't be used twice
+            let mut prev_right_idx = 0;
             value.iter().try_for_each(|bof| {
                 if let BoundOrFiller::Bound(b) = bof {
-                    if b.l == prev_bound_idx {
+                    let left_idx = match b.l {
+                        Side::Some(l) => l,
+                        Side::Continue => 1,
+                    };
+                    if left_idx <= prev_right_idx {
                         return Err("Bounds are sorted, but can't be repeated");
                     }
-                    prev_bound_idx = b.l;
+                    if let Side::Some(r) = b.r {
+                        prev_right_idx = r;
+                    }
                 }
                 Ok(())
             })?;
